@@ -238,6 +238,41 @@ fn one(ctx: &mut Ctx, parser: &CooklangParser, rng: &mut Rng, input: &str) {
     }
     check_json(ctx, &Stats { what: "scalable", tainted }, &desc, &r, fin, op, Some(&|a: &ScalableRecipe, b: &ScalableRecipe| a == b));
 
+    // the model of `==` (Side/SerdeEq.lean, op `eq scalable`): the recipe against what is read back, and against near copies
+    // (a number spelled as a fraction / as a decimal, another value, name, unit, lock, modifier, metadata value)
+    {
+        let full_of = |x: &ScalableRecipe| -> Option<String> {
+            let m = kvs(&x.metadata.map).ok()?;
+            Some(format!("( full {m} {} {} )", recipe_sexp::opt(x.servings(), |s| recipe_sexp::list(s, |n| n.to_string())), recipe_sexp::scalable_recipe(x)))
+        };
+        // (only for recipes inside the property's premise and the model's metadata class: finite numbers, JSON-representable metadata)
+        if let Some(fa) = full_of(&r).filter(|_| fin && !tainted) {
+            if let Ok(Ok(js)) = guarded(|| serde_json::to_string(&r)) {
+                if let Ok(Ok(back)) = guarded(|| serde_json::from_str::<ScalableRecipe>(&js)) {
+                    if let Some(fb) = full_of(&back) {
+                        let e = back == r;
+                        ctx.count(if e { "eq:read-back:true" } else { "eq:read-back:false" });
+                        ctx.case(format!("eq scalable {fb} {fa}"), e.to_string(), true, format!("{desc}: read back == original"));
+                    }
+                }
+            }
+            const NEAR: &[(&str, &str)] = &[("1/2", "0.5"), ("1 1/2", "1.5"), ("3/4", "0.75"), ("0.5", "1/2"), ("2", "3"), ("flour", "flower"), ("%g", "%kg"), ("{1", "{=1"), ("@", "@?"), ("#", "#?"), ("min", "h"), ("(note", "(nota"), ("title:", "titel:"), (": x", ": y"), ("= ", "= X"), ("|alias", "|alia"), ("1", "1.0"), ("0", "0.0")];
+            let k = rng.below(NEAR.len());
+            for j in 0..NEAR.len() {
+                let (from, to) = NEAR[(k + j) % NEAR.len()];
+                let Some(pos) = input.rfind(from) else { continue };
+                let near = format!("{}{}{}", &input[..pos], to, &input[pos + from.len()..]);
+                if let Ok(Ok((r2, _))) = guarded(|| parser.parse(&near).into_result()) {
+                    if let Some(fb) = full_of(&r2).filter(|_| scalable_finite(&r2) && !meta_tainted(&r2.metadata.map)) {
+                        let e = r2 == r;
+                        ctx.count(if e { "eq:near-copy:true" } else { "eq:near-copy:false" });
+                        ctx.case(format!("eq scalable {fb} {fa}"), e.to_string(), true, format!("{desc} == {near:?}"));
+                    }
+                }
+                break;
+            }
+        }
+    }
     // scaled / converted variants (ScalableRecipe is not Clone: parse again)
     // "arbitrary factors": zero and negative ones are accepted by scale() and give finite recipes
     let factor = match rng.below(9) { 0 => 1.0, 1 => 2.0, 2 => 0.5, 3 => 1.0 / 3.0, 4 => 0.0, 5 => -1.5, 6 => -(rng.unit_f64() * 3.0 * 100.0).round() / 100.0, _ => (rng.unit_f64() * 6.0 * 1000.0).round() / 1000.0 };
